@@ -350,6 +350,10 @@ class ProcessRunner(Runner, ABC):
                 storage=storage
             )
         finally:
+            # Hand any captured output to the log queue before the
+            # result is returned to the main process.
+            sys.stdout.flush()
+            sys.stderr.flush()
             process_event_queue.put(ProcessEndEvent(
                 task_name=task_name,
             ))
@@ -366,8 +370,10 @@ class ProcessRunner(Runner, ABC):
         self.future_to_task[future] = task
 
     def wait(self, *, timeout_seconds: Optional[float]) -> Iterator[tuple[Task, ResultMeta | BaseException]]:
-        self._consume_log_queue()
         done, _ = self.executor.wait(list(self.future_to_task.keys()), timeout_seconds=timeout_seconds)
+        # Consume logs after collecting results, so that everything
+        # logged by a completed task is emitted before it is reported.
+        self._consume_log_queue()
         for future in done:
             # Stop tracking the future before yielding its task, so
             # that a consumer that abandons this generator (e.g. on
